@@ -6,7 +6,9 @@
 * smooth functions f(x, u, t), g(x, u, t) described by plain-JSON term lists, turned into sympy expressions;
   values, the four partial Jacobians and the 2nd / 3rd directional derivatives along (dx, du) are obtained
   symbolically (sympy.diff) and evaluated with the `math` module;
-* a second, independent evaluator of the term lists (used by the self test and for magnitude scales).
+* a second, independent evaluator of the term lists (used by the self test and for magnitude scales);
+* first-order round-off scales of the values and of the partial derivatives of a term list (roundoff_scale,
+  jac_roundoff_scale): the float32 tolerances of C15 are 2 eps times these.
 
 Term-list grammar (everything is JSON):
     spec      = {"n": int, "m": int, "f": [component]*n, "g": [component]*p}
@@ -128,6 +130,72 @@ def has_time(comps):
 
 
 # ----------------------------------------------------------------------------------------------------
+# round-off model of a term list evaluated in floating point (any association / order of the products and sums)
+def _atom_round(a, x, u, t):
+    """(m, kap, var, dm, dkap):  |atom| <= m and the computed atom is within kap*eps*m of its value;  var = ("x", i) /
+    ("u", j) / None is the variable it depends on, |d atom / d var| <= dm, computed within dkap*eps*dm.
+    powers: p-1 multiplications or a pow within 2 ulp -> p+1 (derivative p x^(p-1): one more product);
+    sin/cos(w v): one rounding of the argument product (eps |w v|, slope <= 1) + 2 ulp of the function, both relative
+    to the bound 1 (NOT to |sin|, which may vanish) -> |w v| + 2 (derivative w cos: one more product);
+    t/8: one rounding."""
+    k = a[0]
+    if k in ("x", "u"):
+        v, p = abs(float((x if k == "x" else u)[a[1]])), int(a[2])
+        return v ** p, p + 1.0, (k, a[1]), p * v ** (p - 1), p + 2.0
+    if k in ("sx", "cx", "su", "cu"):
+        arg = abs(float(a[2]) * float((x if k[1] == "x" else u)[a[1]]))
+        return 1.0, arg + 2.0, (k[1], a[1]), abs(float(a[2])), arg + 3.0
+    if k == "tl":
+        return abs(float(t)) / 8.0, 1.0, None, 0.0, 0.0
+    if k in ("ts", "tc"):
+        return 1.0, abs(float(a[1]) * float(t)) + 2.0, None, 0.0, 0.0
+    raise ValueError("unknown atom %r" % (a,))
+
+
+def roundoff_scale(comps, x, u, t):
+    """S (one number per component) with |fl(component) - component| <= eps * S to first order:  a product of q factors
+    with relative errors kap_i eps costs (sum kap_i + q) eps of its magnitude bound (q multiplications incl. the
+    coefficient), the sum of r terms r more eps of the sum of the magnitude bounds."""
+    out = []
+    for comp in comps:
+        S = tot = 0.0
+        for coef, atoms in comp:
+            info = [_atom_round(a, x, u, t) for a in atoms]
+            P = abs(float(coef))
+            for i in info:
+                P *= i[0]
+            S += P * (sum(i[1] for i in info) + len(atoms) + 1.0)
+            tot += P
+        out.append(S + len(comp) * tot)
+    return np.array(out, dtype=np.float64)
+
+
+def jac_roundoff_scale(comps, n, m, x, u, t):
+    """(Sx, Su): the same for the partial derivatives d component / d x_i, d component / d u_j (product rule: one
+    path per atom that depends on the variable; back-propagation multiplies exactly these factors)."""
+    Sx, Su = np.zeros((len(comps), n)), np.zeros((len(comps), m))
+    for ci, comp in enumerate(comps):
+        S, tot, paths = np.zeros(n + m), np.zeros(n + m), np.zeros(n + m)
+        for coef, atoms in comp:
+            info = [_atom_round(a, x, u, t) for a in atoms]
+            for ai, (_, _, var, dm, dkap) in enumerate(info):
+                if var is None:
+                    continue
+                col = var[1] + (0 if var[0] == "x" else n)
+                P, K = abs(float(coef)) * dm, dkap + len(atoms) + 1.0
+                for bi, b in enumerate(info):
+                    if bi != ai:
+                        P *= b[0]
+                        K += b[1]
+                S[col] += P * K
+                tot[col] += P
+                paths[col] += 1
+        S += (paths + 1.0) * tot
+        Sx[ci], Su[ci] = S[:n], S[n:]
+    return Sx, Su
+
+
+# ----------------------------------------------------------------------------------------------------
 # term lists -> sympy
 def _q(v):
     return sp.Rational(float(v))        # exact binary value of the double
@@ -167,10 +235,12 @@ def _comp_expr(comp, xs, us, t):
 
 
 class Model:
-    """symbolic f, g with Jacobians and directional derivatives; evaluation through one lambdified function"""
+    """symbolic f, g with Jacobians and directional derivatives; evaluation through one lambdified function.
+    light=True leaves the 2nd / 3rd directional derivatives out (values and Jacobians only; ~5x cheaper to build)."""
 
-    def __init__(self, spec):
+    def __init__(self, spec, light=False):
         self.spec = spec
+        self.light = light
         n, m, p = spec["n"], spec["m"], len(spec["g"])
         self.n, self.m, self.p = n, m, p
         self.xs = sp.symbols("x0:%d" % n, real=True)
@@ -190,7 +260,7 @@ class Model:
                 flat += [sp.diff(e, v) for v in self.xs]
             for e in E:
                 flat += [sp.diff(e, v) for v in self.us]
-        for E in (self.F, self.G):
+        for E in (() if light else (self.F, self.G)):
             line = [e.xreplace(shift) for e in E]
             flat += [sp.diff(e, s, 2) for e in line]
             flat += [sp.diff(e, s, 3) for e in line]
@@ -214,7 +284,8 @@ class Model:
         o["f"], o["g"] = take(n), take(p)
         o["A"], o["B"] = take(n * n, (n, n)), take(n * m, (n, m))
         o["C"], o["D"] = take(p * n, (p, n)), take(p * m, (p, m))
-        o["f2"], o["f3"], o["g2"], o["g3"] = take(n), take(n), take(p), take(p)
+        if not self.light:
+            o["f2"], o["f3"], o["g2"], o["g3"] = take(n), take(n), take(p), take(p)
         assert i == len(v)
         return o
 
@@ -229,6 +300,7 @@ class Model:
     def line_bounds(self, x, u, t, dx, du, smax, k=17):
         """|phi''(0)| and sampled sup over s in [0, smax] of |phi''(s)|, |phi'''(s)| for
         phi(s) = f(x + s dx, u + s du, t) (and g): 2-norms over the components"""
+        assert not self.light
         out = {}
         o0 = self._eval(x, u, t, dx, du, 0.0)
         for w in ("f", "g"):
@@ -242,12 +314,12 @@ class Model:
 
 
 @functools.lru_cache(maxsize=256)
-def _model_cached(key):
-    return Model(json.loads(key))
+def _model_cached(key, light=False):
+    return Model(json.loads(key), light)
 
 
-def model(spec):
-    return _model_cached(json.dumps(spec, sort_keys=True))
+def model(spec, light=False):
+    return _model_cached(json.dumps(spec, sort_keys=True), light)
 
 
 # ----------------------------------------------------------------------------------------------------
@@ -284,6 +356,37 @@ def selftest():
               + eval_components(spec["f"], x - h * dx, u - h * du, t)) / h ** 2
         assert abs(np.linalg.norm(f2) - lb["f"]["m2_0"]) <= 1e-5 * max(1.0, lb["f"]["m2_0"]), (f2, lb)
         assert lb["f"]["m2"] >= lb["f"]["m2_0"]
+    # round-off scales: they dominate the magnitudes (|f| <= S, |J| <= S_jac), the term list evaluated in float32 numpy
+    # arithmetic stays within 2 eps32 S of the float64 value, and the light model gives the same values / Jacobians
+    ML = model(spec, light=True)
+    e32 = float(np.finfo(np.float32).eps)
+    f32 = np.float32
+    fun32 = {"s": np.sin, "c": np.cos}
+    for _ in range(20):
+        x, u = rs.uniform(-2, 2, 2).astype(f32), rs.uniform(-2, 2, 2).astype(f32)
+        t = int(rs.randint(0, 100))
+        xd, ud = x.astype(np.float64), u.astype(np.float64)
+        o, ol = M.values(xd, ud, t), ML.values(xd, ud, t)
+        assert all(np.array_equal(o[k], ol[k]) for k in ("f", "g", "A", "B", "C", "D")) and "f2" not in ol
+        for part, (jx, ju) in (("f", ("A", "B")), ("g", ("C", "D"))):
+            S = roundoff_scale(spec[part], xd, ud, t)
+            Sx, Su = jac_roundoff_scale(spec[part], 2, 2, xd, ud, t)
+            assert np.all(S >= np.abs(o[part])) and np.all(Sx >= np.abs(o[jx])) and np.all(Su >= np.abs(o[ju]))
+            for ci, comp in enumerate(spec[part]):
+                acc = f32(0)
+                for coef, atoms in comp:
+                    v = f32(coef)
+                    for a in atoms:
+                        if a[0] in ("x", "u"):
+                            v = v * (x if a[0] == "x" else u)[a[1]] ** f32(a[2])
+                        elif a[0] == "tl":
+                            v = v * (f32(t) / f32(8))
+                        elif a[0] in ("ts", "tc"):
+                            v = v * fun32[a[0][1]](f32(a[1]) * f32(t))
+                        else:
+                            v = v * fun32[a[0][0]](f32(a[2]) * (x if a[0][1] == "x" else u)[a[1]])
+                    acc = acc + v
+                assert abs(float(acc) - o[part][ci]) <= 2 * e32 * S[ci], (part, ci, float(acc), o[part][ci], S[ci])
     # einsum reference == explicit loops
     A, xx, B, uu, c = rs.randn(3, 2, 4), rs.randn(4), rs.randn(2, 5), rs.randn(3, 5), rs.randn(2)
     y = affine(A, xx, B, uu, c)
